@@ -1,27 +1,43 @@
 """C04  Tree-to-tree distances equal their split-set definitions and are metrics.
 
-Method: the real ``dendropy.calculate.treecompare`` functions (and the deprecated ``Tree`` aliases) are wrapped by
-hooks.  The pre-hook extracts DendroPy-free specs of BOTH argument trees from the raw child lists *before* the call
-(the functions re-encode bipartitions and restructure the trees: unifurcations are suppressed, an unrooted basal
-bifurcation is collapsed) and takes the reference split -> summed-length maps from ``vf.ref.split_lengths``.  The
-post-hook judges what the call returned or raised.  Workloads only *call* the library; relations between several
-results (metric axioms) are judged afterwards from the returned values.
+Method: the real ``dendropy.calculate.treecompare`` functions, the deprecated ``Tree`` aliases and the deprecated public
+module ``dendropy.treecalc`` (dendropy/legacy/treecalc.py) are wrapped by hooks.  The pre-hook extracts DendroPy-free
+specs of BOTH argument trees from the raw child lists *before* the call (the functions re-encode bipartitions and
+restructure the trees: unifurcations are suppressed, an unrooted basal bifurcation is collapsed) and takes the
+reference split -> summed-length maps from ``vf.ref.split_lengths``.  The post-hook judges what the call returned or
+raised.  Workloads only *call* the library; relations between several results (metric axioms) are judged afterwards
+from the returned values.  A further hook on ``Tree.encode_bipartitions`` only records which trees carry which kind of
+cached bipartition data (``_c04_hist.TreeStates``).
 
 Oracle clauses (hook level, every observed call whose two trees share rooting state and leaf set):
   V1  symmetric_difference / unweighted_robinson_foulds_distance == |S1 ^ S2|
-  V2  false_positives_and_negatives(ref, cmp) == (|S2 - S1|, |S1 - S2|)
-  V3  find_missing_bipartitions(ref, cmp), decoded through the namespace's taxon->bit map, == S1 - S2 (as a set)
+  V2  false_positives_and_negatives(ref, cmp) == (|S2 - S1|, |S1 - S2|)   (any 2-sequence of ints)
+  V3  find_missing_bipartitions(ref, cmp) (documented: the bipartitions of the reference tree that the comparison tree
+      lacks, i.e. the set behind the false-negative count), decoded through the namespace's taxon->bit map, == S1 - S2
   V4  weighted_robinson_foulds_distance == sum |l1(s) - l2(s)|,  euclidean_distance == sqrt(sum (l1(s) - l2(s))^2),
       absent split -> 0, lengths of all edges inducing one split summed (unary chains, unrooted basal bifurcation),
       root edge = the split {all | nothing}.  Exact when all lengths lie on the 1/1024 grid, else 1e-9 relative.
-      Judged only when no non-root edge of either tree lacks a length.
-  V5  an exception on a shared namespace is acceptable only as the documented refusal of missing lengths (ValueError
-      raised in treecompare.py by the two weighted functions) and only if a length really is missing.
-  N   trees over different TaxonNamespace objects: every function must raise TaxonNamespaceIdentityError.
+      Judged only when no non-root edge of either tree lacks a length.  With ``edge_weight_attr`` (``edge_length_attr``
+      of the treecalc wrappers) naming another edge attribute the same definition is demanded of that attribute, but
+      only for trees in which every split is induced by exactly one edge (the library sums *lengths* when it merges
+      edges, nothing is said about other attributes).
+  V5  an exception on a shared namespace is acceptable only as a refusal of missing lengths: a ValueError raised by a
+      ``raise`` statement anywhere inside the library, from one of the weighted functions, and only if a non-root
+      length really is missing.  Where and with which ValueError subclass it is raised is not prescribed.
+  N   trees over different TaxonNamespace objects: every function must refuse (TaxonNamespaceIdentityError or another
+      ValueError raised by a ``raise`` statement inside the library), with and without is_bipartitions_updated=True.
   F   default arguments: V1-V4 are demanded against the structure the trees have at the moment of the call, whatever was
       encoded / cached before (edit journal: NNI, SPR on node / on edge, collapse, resolve, unary insertion, length
-      change, explicit encode, calls with is_bipartitions_updated=True interleaved).  Calls with
-      is_bipartitions_updated=True are judged only right after an explicit encode_bipartitions() of both trees.
+      change incl. None and root edge, swapped leaf taxa, rooting toggled, the library's own reseed_at / reroot_at_edge /
+      to_outgroup_position / suppress_unifurcations / collapse_unweighted_edges / resolve_polytomies / prune_taxa /
+      clone, explicit encodes with all flag sets, calls with is_bipartitions_updated=True interleaved).
+  U   is_bipartitions_updated=True: V1-V5 are demanded whenever the caller's side of the documented contract holds for
+      BOTH trees: the tree was never encoded or its encoding is not stored (the functions then encode it themselves),
+      or its last encode used default flags (explicit encode_bipartitions(), a distance call with default arguments
+      that returned, a library method called with update_bipartitions=True that re-encoded with default flags) and its
+      structure was not edited since (edge-length changes do not invalidate bipartitions).  This covers fresh trees,
+      "encode once, then many calls", repeated and swapped calls on the same objects, and mixed pairs.  All other
+      calls with the flag are stale by contract: executed, counted, not judged.
 Relation clauses (workload level, from returned values of calls the hook did not already flag):
   S   d(a,b) and d(b,a): both defined or both refused; equal values (fp/fn mirrored)
   Z   d(t, re-drawing of t) == 0   (child order, unary nodes, unrooted: other seed node / seed on an edge)
@@ -30,61 +46,80 @@ Relation clauses (workload level, from returned values of calls the hook did not
   Z, I, T for the two weighted distances only among trees without missing lengths.
 
 Soundness limits: with missing non-root lengths only S is judged for the weighted distances (the statement does not
-say which value); rooting states are never mixed in a pair; leaf sets are shared; the list returned by
-find_missing_bipartitions is compared as a set (a split listed twice is recorded, not judged); results of calls with
-is_bipartitions_updated=True after an edit are not judged (stale by contract).
+say which value; whether a returned value equals "None counts as 0" is recorded as a note); rooting states are never
+mixed in a pair; leaf sets are shared; the list returned by find_missing_bipartitions is compared as a set (a split
+listed twice is recorded, not judged); value_type other than float is not driven.
+
+A call the hook could not judge although the workload only builds judgeable pairs (malformed tree, leaf without taxon,
+other leaf set, hook bypassed) makes the case INCONCLUSIVE instead of being skipped silently.
 
 Known mechanisms are recognised from the situation, so that any other disagreement keeps a generic key:
   wdist|value-differs-from-definition|unrooted-basal-bifurcation-after-unifurcation-suppression  (resp. |unrooted-two-leaf-tree):
       the post-call tree is unrooted with a bifurcating seed AND the returned value equals the definition evaluated
       with only one of the two basal edge lengths kept for the basal split.
-  wdist|defined-in-one-argument-order-only|refused-only-when-tree-with-missing-lengths-is-second-argument
+  wdist|defined-in-one-argument-order-only|refused-only-when-tree-with-missing-lengths-is-second-argument:
+      only when the refused order's second tree lacks a length on a split it shares with the first tree and the other
+      order's second tree does not lack all lengths of a shared split; any other asymmetry of definedness has its own key.
 """
 import inspect
+import linecache
 import random
 
 from .. import ref, gen, bridge, core
 from ..mon.hooks import Hooks
 from . import _c04_util as U
+from . import _c04_hist as H
 
 PROP = "C04"
 LEVEL = "exploration"
-TECHNIQUE = "runtime monitoring: hooks on the treecompare functions + split-set reference oracle + edit-journal workload"
-LEVEL_TEXT = ("Hooks around the real treecompare functions compare every observed result with the split-set definitions "
-              "computed on DendroPy-free specs extracted before the call; metric axioms are judged on the returned values "
-              "over generated pools, exhaustive small shapes and edit journals. The property held on the executions listed "
-              "in the evidence file, nothing more.")
-LEVEL_NOTE = ("Trusted: vf/ref.py (clades, split_lengths, reroot), the oracle code in vf/props/C04.py and _c04_util.py, "
-              "TaxonNamespace.taxon_bitmask for decoding returned Bipartition objects, CPython. Coverage is what the "
-              "workload reached: n <= 5 exhaustive shapes, random n <= 12 (quick) / <= 50 (thorough).")
-RULE = ("cases = directed witnesses | all rooted multifurcating shapes n<=5 paired (both rootings, length patterns) | random "
-        "pools of 6-8 trees on one namespace and leaf set (base, re-drawings, NNI/SPR neighbours, other lengths, random) x "
-        "all ordered pairs x {sd, fp/fn, wRF, Euclid} + aliases | edit journals | namespace-refusal cases; a pair is "
-        "non-trivial when the two trees differ in a split or a split length, or are distinct drawings of one tree with "
-        ">= 1 internal edge; distinct = distinct (canonical tree 1, ordered drawing of tree 2, rooting, operation)")
+TECHNIQUE = ("runtime monitoring: hooks on the treecompare functions, the Tree aliases and the dendropy.treecalc wrappers "
+             "+ split-set reference oracle + cache-state tracking + object re-use and edit-journal workloads")
+LEVEL_TEXT = ("Hooks around the real treecompare functions (and their Tree / dendropy.treecalc aliases) compare every "
+              "observed result with the split-set definitions computed on DendroPy-free specs extracted before the call; "
+              "metric axioms are judged on the returned values over generated pools, exhaustive small shapes (n = 1..5), "
+              "re-used tree objects queried repeatedly with is_bipartitions_updated=True, and edit journals that mix node-"
+              "level edits, the library's own restructuring methods, encodes and distance calls. The property held on the "
+              "executions listed in the evidence file, nothing more.")
+LEVEL_NOTE = ("Trusted: vf/ref.py (clades, split_lengths, reroot), the oracle code in vf/props/C04.py, _c04_util.py and "
+              "_c04_hist.py, TaxonNamespace.taxon_bitmask for decoding returned Bipartition objects, CPython. Coverage is "
+              "what the workload reached: n <= 5 exhaustive shapes, random n <= 12 (quick) / <= 50 (thorough).")
+RULE = ("cases = directed witnesses | all rooted multifurcating shapes n<=5 (n=1: drawings of the one-leaf tree) paired (both "
+        "rootings, length patterns) | random pools of 6-10 trees on one namespace and leaf set (base, re-drawings, NNI/SPR "
+        "neighbours, other lengths, random; n = 1..12 / ..50) x all ordered pairs x {sd, fp/fn, wRF, Euclid} on fresh builds "
+        "+ aliases (treecompare, Tree, dendropy.treecalc; custom weight attribute) + calls with is_bipartitions_updated=True "
+        "on fresh / pre-encoded / storage-suppressed builds + a pass over ONE set of live objects (node API, parser or copy "
+        "built) queried repeatedly, swapped, with and without the flag, with length edits in between | edit journals "
+        "(node edits, library restructuring methods with and without update_bipartitions, encodes with all flag sets, "
+        "rooting toggles, runs of flagged calls) | namespace-refusal cases; a pair is non-trivial when the two trees differ "
+        "in a split or a split length, or are distinct drawings of one tree with >= 1 internal edge; distinct = distinct "
+        "(canonical tree 1, ordered drawing of tree 2, rooting, operation)")
 REACH = ["treecompare:symmetric_difference", "treecompare:false_positives_and_negatives",
          "treecompare:weighted_robinson_foulds_distance", "treecompare:euclidean_distance",
          "treecompare:find_missing_bipartitions", "treecompare:unweighted_robinson_foulds_distance",
+         "treecompare:robinson_foulds_distance",
          "treecompare:_get_length_diffs", "treecompare:_bipartition_difference",
          "_tree:Tree.symmetric_difference", "_tree:Tree.false_positives_and_negatives",
-         "_tree:Tree.robinson_foulds_distance", "_tree:Tree.euclidean_distance",
+         "_tree:Tree.robinson_foulds_distance", "_tree:Tree.euclidean_distance", "_tree:Tree.find_missing_splits",
+         "treecalc:symmetric_difference", "treecalc:false_positives_and_negatives", "treecalc:robinson_foulds_distance",
+         "treecalc:euclidean_distance", "treecalc:find_missing_splits",
          "_tree:Tree.encode_bipartitions", "_tree:Tree._get_bipartition_edge_map",
-         "_tree:Tree.collapse_basal_bifurcation", "_bipartition:Bipartition.__hash__", "_bipartition:Bipartition.__eq__"]
-MIN_EVENTS = {"value-judged:sd": (30000, 180000), "value-judged:fpfn": (30000, 180000),
-              "value-judged:wrf": (20000, 120000), "value-judged:euclid": (20000, 120000),
-              "value-judged:missing": (5000, 25000),
-              "symmetry-checked": (50000, 300000), "triangle-checked": (200000, 1400000),
-              "redraw-zero-checked": (15000, 80000), "invariance-checked": (40000, 300000),
-              "journal-call-after-edit": (600, 9000), "namespace-refusal-checked": (5000, 30000),
-              "refusal-with-missing-lengths": (10000, 80000),
-              "hook:treecompare.symmetric_difference:call": (30000, 180000),
-              "hook:Tree.symmetric_difference:call": (800, 5000)}
+         "_tree:Tree.collapse_basal_bifurcation", "_tree:Tree.suppress_unifurcations", "_tree:Tree.reseed_at",
+         "_tree:Tree.reroot_at_edge", "_tree:Tree.to_outgroup_position", "_tree:Tree.prune_taxa",
+         "_tree:Tree.resolve_polytomies", "_tree:Tree.collapse_unweighted_edges",
+         "_bipartition:Bipartition.__hash__", "_bipartition:Bipartition.__eq__"]
+MIN_EVENTS = {}        # filled in below (after the operation tables)
 ASSUMPTIONS = ["reference split -> length maps come from vf.ref.split_lengths on specs read from the raw child lists "
                "before each call; the root edge counts as the split {all taxa | nothing}",
                "TaxonNamespace.taxon_bitmask is taken as the given taxon->bit assignment when decoding the Bipartition "
                "objects returned by find_missing_bipartitions (its correctness is C01/C10)",
-               "the node-level edit primitives (add_child / insert_child / remove_child, edge.length) are only used to "
-               "produce histories; the reference re-reads the live structure after every edit"]
+               "the node-level edit primitives (add_child / insert_child / remove_child, edge.length, node.taxon) and the "
+               "library's restructuring methods are only used to produce histories; the reference re-reads the live "
+               "structure before every distance call, and a journal ends (counted) when such a method leaves a tree "
+               "outside the quantifier (leaf without taxon, other leaf set)",
+               "is_bipartitions_updated=True is judged only when the harness itself saw the caller's side of the contract "
+               "being met (tree never encoded / encoding not stored / last encode with default flags and no structural "
+               "edit since, observed through a hook on Tree.encode_bipartitions); a refusal is any ValueError raised by a "
+               "raise statement inside the library (source line of the innermost traceback frame)"]
 CASE_TIMEOUT = 120
 
 KIND = {
@@ -100,6 +135,11 @@ KIND = {
     "Tree.robinson_foulds_distance": "wrf",
     "Tree.euclidean_distance": "euclid",
     "Tree.find_missing_splits": "missing",
+    "treecalc.symmetric_difference": "sd",
+    "treecalc.false_positives_and_negatives": "fpfn",
+    "treecalc.robinson_foulds_distance": "wrf",
+    "treecalc.euclidean_distance": "euclid",
+    "treecalc.find_missing_splits": "missing",
 }
 FN_OF_KIND = {"sd": "symmetric_difference", "fpfn": "false_positives_and_negatives",
               "wrf": "weighted_robinson_foulds_distance", "euclid": "euclidean_distance",
@@ -107,6 +147,9 @@ FN_OF_KIND = {"sd": "symmetric_difference", "fpfn": "false_positives_and_negativ
 K_BASAL = "wdist|value-differs-from-definition|unrooted-basal-bifurcation-after-unifurcation-suppression"
 K_TWOLEAF = "wdist|value-differs-from-definition|unrooted-two-leaf-tree"
 K_ASYM = "wdist|defined-in-one-argument-order-only|refused-only-when-tree-with-missing-lengths-is-second-argument"
+K_ASYM_UNSHARED = "wdist|defined-in-one-argument-order-only|refused-though-second-argument-lacks-lengths-on-unshared-splits-only"
+K_ASYM_DEFINED = "wdist|defined-in-one-argument-order-only|defined-though-second-argument-lacks-every-length-of-a-shared-split"
+WATTR = "c04_weight"       # second numeric edge attribute (= 2 * length) for the edge_weight_attr option
 
 _configured = [False]
 
@@ -125,32 +168,37 @@ class Monitor(object):
         self.ctx = ctx
         self.last = None          # verdict of the most recent outermost hooked call (read by the workload)
         self.hist = {}            # id(tree) -> (tree, maps at the last judged encode)  [stale discriminator]
-        self.trust_updated = False
+        self.states = H.TreeStates()
         self.nsamples = 0
         self._sigs = {}
 
     # -- installation -----------------------------------------------------------------------
-    def install(self, hooks_mod, hooks_tree):
+    def install(self, hooks_mod, hooks_tree, hooks_legacy, hooks_enc):
+        """three hook layers so that an alias AND the function it forwards to are both judged"""
         import dendropy
         from dendropy.calculate import treecompare
+        from dendropy.legacy import treecalc
+        owners = {"treecompare": (treecompare, hooks_mod), "Tree": (dendropy.Tree, hooks_tree),
+                  "treecalc": (treecalc, hooks_legacy)}
         for tag in KIND:
             owner_name, name = tag.split(".")
-            owner = treecompare if owner_name == "treecompare" else dendropy.Tree
+            owner, hk = owners[owner_name]
             self._sigs[tag] = inspect.signature(inspect.getattr_static(owner, name))
-            hk = hooks_mod if owner is treecompare else hooks_tree
             hk.install(owner, name, pre=self._mk_pre(tag), post=self._post, tag=tag)
+        self.states.install(hooks_enc)
 
     def _mk_pre(self, tag):
         def pre(obj, args, kw):
-            try:
-                return self._pre(tag, obj, args, kw)
-            except core.CaseTimeout:
-                raise
+            return self._pre(tag, obj, args, kw)
         return pre
+
+    def track(self, tree):
+        return self.states.track(tree)
 
     # -- pre: snapshot of both arguments before the library touches them -----------------------
     def _pre(self, tag, obj, args, kw):
         import dendropy
+        self.states.depth += 1
         self.last = None
         snap = {"tag": tag, "kind": KIND[tag], "why": None}
         try:
@@ -169,13 +217,16 @@ class Monitor(object):
             return snap
         snap["t1"], snap["t2"] = t1, t2
         snap["updated"] = bool(ba.arguments.get("is_bipartitions_updated", False))
-        snap["default_weights"] = (ba.arguments.get("edge_weight_attr", "length") == "length"
-                                   and ba.arguments.get("value_type", float) is float)
+        wattr = ba.arguments.get("edge_weight_attr", ba.arguments.get("edge_length_attr", "length"))
+        snap["wattr"] = wattr
+        snap["float_values"] = ba.arguments.get("value_type", float) is float
         snap["same_ns"] = t1.taxon_namespace is t2.taxon_namespace
-        snap["trusted"] = self.trust_updated
+        snap["st1"], snap["st2"] = self.states.get(t1), self.states.get(t2)
+        snap["trusted"] = H.trusted(snap["st1"]) and H.trusted(snap["st2"])
+        custom = snap["kind"] in ("wrf", "euclid") and wattr != "length"
         try:
-            sp1 = bridge.extract(t1)
-            sp2 = sp1 if t2 is t1 else bridge.extract(t2)
+            sp1 = _extract(t1, wattr if custom else None)
+            sp2 = sp1 if t2 is t1 else _extract(t2, wattr if custom else None)
         except bridge.ExtractError:
             snap["why"] = "malformed-argument-tree"
             return snap
@@ -193,6 +244,8 @@ class Monitor(object):
         snap["sp1"], snap["sp2"] = sp1, sp2
         snap["m1"], snap["miss1"] = U.split_maps(sp1, r1)
         snap["m2"], snap["miss2"] = (snap["m1"], snap["miss1"]) if t2 is t1 else U.split_maps(sp2, r2)
+        if custom:
+            snap["one_edge"] = H.one_edge_per_split(sp1, r1) and H.one_edge_per_split(sp2, r2)
         return snap
 
     def note_encoded(self, tree):
@@ -205,37 +258,59 @@ class Monitor(object):
 
     # -- post: the oracle -------------------------------------------------------------------------
     def _post(self, snap, obj, args, kw, result, exc):
-        from dendropy.utility import error
-        ctx = self.ctx
+        self.states.depth -= 1
         st = self.last = {"status": "unjudged", "value": result, "exc": exc, "refused": False}
         if isinstance(exc, core.CaseTimeout):
             return
         if snap is None or "same_ns" not in snap:
-            ctx.note("call-not-judged:%s" % (snap["why"] if snap else "no-snapshot"))
+            self.ctx.note("call-not-judged:%s" % (snap["why"] if snap else "no-snapshot"))
+            st["status"] = "outside-quantifier"
+            st["why"] = snap["why"] if snap else "no-snapshot"
             return
+        outcome = self._judge(snap, st, result, exc)
+        self.states.after_call(snap["t1"], snap["t2"], snap["updated"], outcome)
+
+    def _judge(self, snap, st, result, exc):
+        """-> returned | refused | raised   (what the call did, for the state tracking)"""
+        ctx = self.ctx
         tag, kind = snap["tag"], snap["kind"]
         t1, t2 = snap["t1"], snap["t2"]
+        # discriminator of every key of a flagged call: what the two trees carried (unordered, coarse)
+        flagged_call = ("|is_bipartitions_updated=True-after:%s" % "+".join(sorted(set(
+            (_state_class(snap["st1"]), _state_class(snap["st2"]))))) if snap["updated"] else "")
         # N: different namespaces are refused
         if not snap["same_ns"]:
             ctx.ev("namespace-refusal-checked")
+            if snap["updated"]:
+                ctx.ev("namespace-refusal-checked:is_bipartitions_updated=True")
             if exc is None:
                 st["status"] = "flagged"
                 ctx.violation("%s|different-namespaces-not-refused" % tag,
                               "%s returned %r for trees over two TaxonNamespace objects" % (tag, _brief(result)),
                               self._detail(snap))
-            elif not isinstance(exc, error.TaxonNamespaceIdentityError):
+                return "returned"
+            if not _is_refusal(exc):
                 st["status"] = "flagged"
                 ctx.unexpected(tag, exc, self._detail(snap))
-            else:
-                st["status"] = "refused-namespace"
-            return
+                return "raised"
+            st["status"] = "refused-namespace"
+            return "refused"
         if snap["why"]:
             ctx.note("call-not-judged:%s" % snap["why"])
             st["status"] = "outside-quantifier"
-            return
+            st["why"] = snap["why"]
+            return "returned" if exc is None else "raised"
         if snap["updated"] and not snap["trusted"]:
-            ctx.note("call-with-is_bipartitions_updated=True-not-judged")
-            return
+            ctx.ev("flagged-call-stale-by-contract")
+            st["status"] = "stale-by-contract"
+            if exc is not None:
+                ctx.note("exception-in-stale-by-contract-call:%s" % type(exc).__name__)
+                return "raised"
+            return "returned"
+        if snap["updated"]:
+            fresh = [x in ("fresh", "nostore") for x in (snap["st1"], snap["st2"])]
+            ctx.ev("flagged-call-judged")
+            ctx.ev("flagged-call-judged:%s" % ("nothing-stored" if all(fresh) else "mixed" if any(fresh) else "reused"))
         m1, m2 = snap["m1"], snap["m2"]
         missing_len = snap["miss1"] or snap["miss2"]
         if exc is not None:
@@ -244,14 +319,18 @@ class Monitor(object):
                     ctx.ev("refusal-with-missing-lengths")
                     st["status"] = "refused"
                     st["refused"] = True
-                else:
-                    st["status"] = "flagged"
-                    ctx.violation("%s|refused-although-no-length-is-missing" % tag,
-                                  "%s raised %s" % (tag, core.exc_brief(exc)), self._detail(snap))
-            else:
+                    return "refused"
                 st["status"] = "flagged"
+                ctx.violation("%s|refused-although-no-length-is-missing|%s%s" % (tag, core.exc_key(exc), flagged_call),
+                              "%s raised %s" % (tag, core.exc_brief(exc)), self._detail(snap))
+                return "raised"
+            st["status"] = "flagged"
+            if snap["updated"]:
+                ctx.violation("%s|unexpected-exception|%s%s" % (tag, core.exc_key(exc), flagged_call),
+                              "%s raised %s" % (tag, core.exc_brief(exc)), self._detail(snap))
+            else:
                 ctx.unexpected(tag, exc, self._detail(snap))
-            return
+            return "raised"
         exp = U.expected(m1, m2)
         prev1 = self.hist.get(id(t1))
         prev2 = self.hist.get(id(t2))
@@ -271,33 +350,37 @@ class Monitor(object):
             except Exception:
                 return False
 
+        got = None
         if kind == "sd":
             ctx.ev("value-judged:sd")
             if result != exp["sd"] or isinstance(result, bool):
                 st["status"] = "flagged"
                 disc = "|stale-bipartitions" if stale(lambda e: e["sd"] == result) else ""
-                ctx.violation("%s|value-differs-from-definition%s" % (tag, disc),
+                ctx.violation("%s|value-differs-from-definition%s%s" % (tag, disc, flagged_call),
                               "%s returned %r, |S1 ^ S2| = %d" % (tag, _brief(result), exp["sd"]), self._detail(snap))
             else:
                 st["status"] = "ok"
         elif kind == "fpfn":
             ctx.ev("value-judged:fpfn")
-            ok = isinstance(result, tuple) and len(result) == 2 and tuple(result) == exp["fpfn"]
+            ok = (isinstance(result, (tuple, list)) and len(result) == 2 and tuple(result) == exp["fpfn"]
+                  and not any(isinstance(x, bool) for x in result))
             if not ok:
                 st["status"] = "flagged"
                 disc = "|stale-bipartitions" if stale(lambda e: tuple(result) == e["fpfn"]) else ""
-                ctx.violation("%s|value-differs-from-definition%s" % (tag, disc),
+                ctx.violation("%s|value-differs-from-definition%s%s" % (tag, disc, flagged_call),
                               "%s returned %r, (|S2 - S1|, |S1 - S2|) = %r" % (tag, _brief(result), exp["fpfn"]),
                               self._detail(snap))
             else:
                 st["status"] = "ok"
+                if not isinstance(result, tuple):
+                    ctx.note("false_positives_and_negatives-returned-a-%s" % type(result).__name__)
         elif kind == "missing":
             ctx.ev("value-judged:missing")
             got = self._decode(result, snap)
             if got is None or got[0] != exp["missing"]:
                 st["status"] = "flagged"
                 disc = "|stale-bipartitions" if (got is not None and stale(lambda e: got[0] == e["missing"])) else ""
-                ctx.violation("%s|value-differs-from-definition%s" % (tag, disc),
+                ctx.violation("%s|value-differs-from-definition%s%s" % (tag, disc, flagged_call),
                               "%s returned %s, S1 - S2 has %d splits" % (
                                   tag, "an undecodable result" if got is None else "%d distinct splits" % len(got[0]),
                                   len(exp["missing"])), self._detail(snap))
@@ -307,19 +390,35 @@ class Monitor(object):
                 if got[1]:
                     ctx.note("find_missing_bipartitions-lists-a-split-twice")
         else:
-            if not snap["default_weights"]:
-                ctx.note("call-with-non-default-weights-not-judged")
-                return
-            if missing_len:
-                ctx.note("weighted-value-with-missing-lengths-not-judged")
+            custom = snap["wattr"] != "length"
+            if not snap["float_values"]:
+                ctx.note("call-with-value_type-other-than-float-not-judged")
+                return "returned"
+            if custom and not snap.get("one_edge"):
+                ctx.note("call-with-custom-weight-attribute-not-judged:several-edges-induce-one-split")
                 st["status"] = "defined-unjudged"
-                return
+                return "returned"
+            if missing_len:
+                # the statement leaves the value open; the observed policy is only recorded
+                ok0 = (not isinstance(result, bool) and isinstance(result, (int, float))
+                       and U.close(result, exp[kind], U.on_grid(m1, m2)))
+                ctx.note("weighted-value-with-missing-lengths-not-judged:%s" % (
+                    "equals-None-counted-as-0" if ok0 else "differs-from-None-counted-as-0"))
+                st["status"] = "defined-unjudged"
+                return "returned"
             ctx.ev("value-judged:%s" % kind)
+            if custom:
+                ctx.ev("value-judged:custom-weight-attribute")
             exact = U.on_grid(m1, m2)
             if isinstance(result, bool) or not isinstance(result, (int, float)) or not U.close(result, exp[kind], exact):
                 st["status"] = "flagged"
                 key, why = self._classify_weighted(snap, result, exact, stale)
-                ctx.violation(key, "%s returned %r, definition gives %r%s" % (tag, _brief(result), exp[kind], why),
+                if custom:
+                    key += "|custom-edge_weight_attr"
+                if key not in (K_TWOLEAF, K_BASAL):       # recognised mechanisms keep their recorded key
+                    key += flagged_call
+                ctx.violation(key,
+                              "%s returned %r, definition gives %r%s" % (tag, _brief(result), exp[kind], why),
                               self._detail(snap))
             else:
                 st["status"] = "ok"
@@ -327,13 +426,17 @@ class Monitor(object):
         if st["status"] == "ok" and self.nsamples < 1 and kind == want and (exp["sd"] > 0) and len(m1) > 5:
             self.nsamples += 1
             ctx.sample({"call": tag, "tree1": ref.to_newick(snap["sp1"]), "tree2": ref.to_newick(snap["sp2"]),
-                        "rooted": snap["rooted"],
+                        "rooted": snap["rooted"], "is_bipartitions_updated": snap["updated"],
                         "returned": _splits_text(got[0]) if kind == "missing" else _brief(result),
                         "definition": _splits_text(exp[kind]) if kind == "missing" else _brief(exp[kind])})
+        return "returned"
 
     # -- helpers ------------------------------------------------------------------------------------
     def _detail(self, snap):
-        d = {"call": snap["tag"], "is_bipartitions_updated": snap.get("updated")}
+        d = {"call": snap["tag"], "is_bipartitions_updated": snap.get("updated"),
+             "cache-state-of-the-trees": [snap.get("st1"), snap.get("st2")]}
+        if snap.get("wattr", "length") != "length":
+            d["weight-attribute"] = snap["wattr"]
         if "sp1" in snap:
             d.update({"rooted": snap["rooted"], "tree1": ref.to_newick(snap["sp1"])[:600],
                       "tree2": "<same object>" if snap["t2"] is snap["t1"] else ref.to_newick(snap["sp2"])[:600]})
@@ -365,7 +468,7 @@ class Monitor(object):
             if stale(lambda e: U.close(got, e[kind], exact)):
                 return generic + "|stale-bipartitions", " (equals the definition on the previously encoded structures)"
             return generic, ""
-        if snap["rooted"] or snap["t1"] is snap["t2"]:
+        if snap["rooted"] or snap["t1"] is snap["t2"] or snap["wattr"] != "length":
             return or_stale()
         # known mechanism: unrooted tree left with a bifurcating seed; bipartition_edge_map keeps one of the two
         # basal edges, i.e. one of two lengths of the same split
@@ -396,12 +499,50 @@ class Monitor(object):
         return or_stale()
 
 
-def _is_length_refusal(exc):
-    from dendropy.utility import error
-    if not isinstance(exc, ValueError) or isinstance(exc, error.TaxonNamespaceIdentityError):
+def _state_class(state):
+    if state in ("fresh", "nostore"):
+        return "nothing-stored"
+    if state in ("clean:encode", "clean:call"):
+        return "encoded"
+    if state.startswith("clean:"):
+        return "updated-by-%s" % state[6:]
+    return state
+
+
+def _extract(tree, wattr):
+    """spec of a live tree; with ``wattr`` the value of that edge attribute stands in the length slot"""
+    if wattr is None:
+        return bridge.extract(tree)
+    sp, nodes = bridge.extract(tree, with_nodes=True)
+    for s, nd in nodes:
+        s[2] = getattr(nd._edge, wattr, None) if isinstance(wattr, str) else None
+    return sp
+
+
+def _deliberate_raise(exc):
+    """raised by a ``raise`` statement inside the library (not an accident such as a TypeError out of an operator, and
+    not something thrown by harness code the library called)"""
+    tb = exc.__traceback__
+    last = None
+    while tb is not None:
+        last = tb
+        tb = tb.tb_next
+    if last is None or not core.raised_in_repo(exc):
         return False
-    fr = core.innermost_repo_frame(exc)
-    return fr is not None and fr[1] == "treecompare.py" and core.raised_in_repo(exc)
+    line = linecache.getline(last.tb_frame.f_code.co_filename, last.tb_lineno).strip()
+    return line.startswith("raise ") or line == "raise"
+
+
+def _is_refusal(exc):
+    """N: the library deliberately refuses the pair"""
+    return isinstance(exc, ValueError) and _deliberate_raise(exc)
+
+
+def _is_length_refusal(exc):
+    """V5: a deliberate ValueError that is not the namespace refusal; file, function and subclass are not prescribed"""
+    from dendropy.utility import error
+    return (isinstance(exc, ValueError) and not isinstance(exc, error.TaxonNamespaceIdentityError)
+            and _deliberate_raise(exc))
 
 
 def _splits_text(splits):
@@ -428,6 +569,7 @@ def _brief(v):
 # calling the library from the workload
 def _ops():
     from dendropy.calculate import treecompare as tc
+    from dendropy.legacy import treecalc as lc
     return {
         "sd": lambda a, b, **k: tc.symmetric_difference(a, b, **k),
         "fpfn": lambda a, b, **k: tc.false_positives_and_negatives(a, b, **k),
@@ -435,18 +577,86 @@ def _ops():
         "euclid": lambda a, b, **k: tc.euclidean_distance(a, b, **k),
         "missing": lambda a, b, **k: tc.find_missing_bipartitions(a, b, **k),
         "urf": lambda a, b, **k: tc.unweighted_robinson_foulds_distance(a, b, **k),
-        "rf-legacy": lambda a, b: tc.robinson_foulds_distance(a, b),
+        "rf-legacy": lambda a, b, **k: tc.robinson_foulds_distance(a, b, **k),
         "T.sd": lambda a, b: a.symmetric_difference(b),
         "T.fpfn": lambda a, b: a.false_positives_and_negatives(b),
         "T.rf": lambda a, b: a.robinson_foulds_distance(b),
         "T.euclid": lambda a, b: a.euclidean_distance(b),
         "T.missing": lambda a, b: a.find_missing_splits(b),
+        "L.sd": lambda a, b: lc.symmetric_difference(a, b),
+        "L.fpfn": lambda a, b: lc.false_positives_and_negatives(a, b),
+        "L.rf": lambda a, b, **k: lc.robinson_foulds_distance(a, b, **k),
+        "L.euclid": lambda a, b, **k: lc.euclidean_distance(a, b, **k),
+        "L.missing": lambda a, b: lc.find_missing_splits(a, b),
     }
 
 
 PRIMARY = ("sd", "fpfn", "wrf", "euclid")
-ALIASES = ("urf", "rf-legacy", "T.sd", "T.fpfn", "T.rf", "T.euclid")
+ALIASES = ("urf", "rf-legacy", "T.sd", "T.fpfn", "T.rf", "T.euclid", "T.missing",
+           "L.sd", "L.fpfn", "L.rf", "L.euclid", "L.missing")
 TAKES_FLAG = ("sd", "fpfn", "wrf", "euclid", "missing", "urf")
+# operations that take the name of the edge attribute holding the weights, and the keyword they take it by
+TAKES_ATTR = {"wrf": "edge_weight_attr", "euclid": "edge_weight_attr", "rf-legacy": "edge_weight_attr",
+              "L.rf": "edge_length_attr", "L.euclid": "edge_length_attr"}
+HOOK_OF_OP = {"urf": "treecompare.unweighted_robinson_foulds_distance", "rf-legacy": "treecompare.robinson_foulds_distance",
+              "missing": "treecompare.find_missing_bipartitions",
+              "T.sd": "Tree.symmetric_difference", "T.fpfn": "Tree.false_positives_and_negatives",
+              "T.rf": "Tree.robinson_foulds_distance", "T.euclid": "Tree.euclidean_distance",
+              "T.missing": "Tree.find_missing_splits",
+              "L.sd": "treecalc.symmetric_difference", "L.fpfn": "treecalc.false_positives_and_negatives",
+              "L.rf": "treecalc.robinson_foulds_distance", "L.euclid": "treecalc.euclidean_distance",
+              "L.missing": "treecalc.find_missing_splits"}
+
+# ---- vacuity guards: (quick, thorough) minima at roughly 40-50 % of what clean runs observe ------------------------
+MIN_EVENTS.update({
+    "value-judged:sd": (30000, 180000), "value-judged:fpfn": (30000, 180000),
+    "value-judged:wrf": (20000, 120000), "value-judged:euclid": (20000, 120000),
+    "value-judged:missing": (5000, 25000), "value-judged:custom-weight-attribute": (250, 1300),
+    "symmetry-checked": (50000, 300000), "triangle-checked": (200000, 1400000),
+    "redraw-zero-checked": (15000, 80000), "invariance-checked": (40000, 300000),
+    "journal-call-after-edit": (280, 4400),
+    "namespace-refusal-checked": (5000, 30000), "namespace-refusal-checked:is_bipartitions_updated=True": (1700, 13000),
+    "refusal-with-missing-lengths": (10000, 80000),
+    "hook:treecompare.symmetric_difference:call": (30000, 180000),
+    "hook:treecompare.find_missing_bipartitions:call": (8000, 50000),
+    "hook:treecompare.unweighted_robinson_foulds_distance:call": (2600, 20000),
+    # U: the flag on trees that carry nothing / a stored default encoding, object re-use
+    "flagged-call-judged": (16000, 120000), "flagged-call-judged:nothing-stored": (2300, 14000),
+    "flagged-call-judged:mixed": (2800, 17000), "flagged-call-judged:reused": (11000, 90000),
+    "persistent-pass:call": (15000, 110000), "persistent-pass:flagged-call-judged-after-length-edit": (7000, 54000),
+    "journal-flagged-call:judged": (850, 15000), "journal-flagged-call:judged-in-a-run": (500, 9000),
+    "journal-flagged-call:judged-after-library-method-updated-bipartitions": (35, 900),
+    "journal-flagged-call:stale-by-contract": (160, 2300),
+    "built-through:parser": (1000, 7000), "built-through:copy": (1000, 7000),
+    # input classes
+    "single-leaf-pool": (10, 10), "pool:rooting-left-undefined": (35, 330),
+    "redraw-member:child-order": (650, 3200), "redraw-member:unary": (650, 3200), "redraw-member:mixed": (650, 3200),
+    "redraw-member:reseed": (250, 1200), "redraw-member:reseed-edge": (250, 1200),
+    "journal-encode:default": (70, 1200),
+})
+for _op in ALIASES:
+    MIN_EVENTS["alias-call:%s" % _op] = (350, 2200)                 # on a shared namespace, judged by value
+    if _op != "urf":
+        MIN_EVENTS["hook:%s:call" % HOOK_OF_OP[_op]] = (650, 4800)
+for _v in ("fresh-same-labels", "shares-taxon-objects", "deepcopy-of-tree", "deepcopy-of-namespace"):
+    MIN_EVENTS["namespace-variant:%s" % _v] = (35, 270)
+for _e in ("suppress_unifurcations", "collapse_unrooted_basal_bifurcation", "is_bipartitions_mutable", "suppress_storage"):
+    MIN_EVENTS["journal-encode:%s" % _e] = (15, 400)
+for _e, _m in (("collapse", (75, 1200)), ("length", (250, 4000)), ("length-none", (40, 750)), ("nni", (70, 1100)),
+               ("resolve", (55, 850)), ("root-length", (40, 800)), ("spr-child", (60, 1200)), ("spr-edge", (70, 1300)),
+               ("swap-taxa", (50, 700)), ("toggle-rooting", (28, 600)), ("unary", (90, 1500)), ("lib:copy", (35, 650)),
+               ("lib:collapse_unweighted_edges", (18, 300)), ("lib:collapse_unweighted_edges:update_bipartitions", (18, 330)),
+               ("lib:prune_taxa", (22, 500)), ("lib:prune_taxa:update_bipartitions", (28, 520)),
+               ("lib:reroot_at_edge", (25, 400)), ("lib:reroot_at_edge:update_bipartitions", (5, 130)),
+               ("lib:reseed_at", (12, 210)), ("lib:reseed_at:update_bipartitions", (11, 230)),
+               ("lib:resolve_polytomies", (15, 280)), ("lib:resolve_polytomies:update_bipartitions", (15, 300)),
+               ("lib:suppress_unifurcations", (10, 280)), ("lib:suppress_unifurcations:update_bipartitions", (17, 320)),
+               ("lib:to_outgroup_position", (18, 260)), ("lib:to_outgroup_position:update_bipartitions", (14, 270))):
+    MIN_EVENTS["journal-edit:%s" % _e] = _m
+for _e, _m in (("collapse_unweighted_edges", 60), ("prune_taxa", 60), ("reseed_at", 60), ("resolve_polytomies", 60),
+               ("suppress_unifurcations", 60), ("reroot_at_edge", 30), ("to_outgroup_position", 30)):
+    MIN_EVENTS["flagged-call-judged-after-library-method:%s" % _e] = (_m, _m)
+del _op, _v, _e, _m
 
 
 def dcall(ctx, mon, fn, a, b, **kw):
@@ -456,9 +666,10 @@ def dcall(ctx, mon, fn, a, b, **kw):
         v = fn(a, b, **kw)
         out = mon.last
         if out is None:
+            # the route no longer goes through the hooked attributes: its oracle is gone
             ctx.ev("hook-bypassed")
+            ctx.mark_inconclusive("a distance call did not pass through any hooked function: not judged")
             out = {"status": "unjudged", "value": v, "exc": None, "refused": False}
-        return out
     except core.CaseTimeout:
         raise
     except Exception as e:
@@ -466,7 +677,16 @@ def dcall(ctx, mon, fn, a, b, **kw):
         if out is None or out.get("exc") is not e:
             ctx.unexpected("harness-call", e)
             out = {"status": "flagged", "value": None, "exc": e, "refused": False}
-        return out
+    if out["status"] == "outside-quantifier":
+        # the workloads only build pairs inside the quantifier: something (an earlier library call?) changed a tree
+        ctx.mark_inconclusive("call not judged although the workload built a judgeable pair: %s" % out.get("why"))
+    return out
+
+
+def set_weight_attr(tree):
+    for nd in U.live_nodes(tree):
+        e = nd.edge
+        setattr(e, WATTR, None if e.length is None else 2 * e.length)
 
 
 def make_ns(labels, rng, cfg=None):
@@ -481,16 +701,46 @@ def make_ns(labels, rng, cfg=None):
     return dendropy.TaxonNamespace(labels)
 
 
+def build_live(ctx, mon, spec, ns, rooted, rng=None, route="node-api"):
+    """live tree for a spec, registered with the cache-state tracker.  route: node-api | parser | copy"""
+    tree = None
+    if route == "parser":
+        tree = H.parse_tree(spec, ns, rooted)
+        if tree is None:
+            ctx.note("parser-route-not-usable-for-this-spec")
+        else:
+            ctx.ev("built-through:parser")
+    if tree is None:
+        tree = bridge.build_tree(ref.copy(spec), ns, rooted)
+        if route == "copy":
+            tree, how = H.lib_copy(tree, rng)
+            ctx.ev("built-through:copy")
+    return mon.track(tree)
+
+
+PRE_STATES = ("fresh", "fresh", "fresh", "encode", "encode", "nostore")
+
+
+def put_in_state(mon, tree, how):
+    if how == "encode":
+        tree.encode_bipartitions()
+        mon.note_encoded(tree)
+    elif how == "nostore":
+        tree.encode_bipartitions(suppress_storage=True)
+
+
 # ==========================================================================================
 # pool engine: all ordered pairs x primary ops on fresh builds, then the relation clauses
 def member(spec, rooted, group=None, how=None):
     m, miss = U.split_maps(spec, rooted)
+    some, every = H.none_splits(spec, rooted) if miss else (frozenset(), frozenset())
     return {"spec": spec, "group": group, "how": how, "miss": miss, "grid": U.on_grid(m), "map": m,
+            "none-some": some, "none-all": every,
             "internal": len(ref.nontrivial_splits(spec, rooted))}
 
 
 def run_pool_engine(ctx, mon, members, ns, rooted, rng, alias_calls=4, missing_calls=6, self_pairs=True, pairs=None,
-                    build_rooted="same"):
+                    build_rooted="same", flag_calls=4, persist_calls=0):
     """rooted: rooting state for the reference; build_rooted: what the live trees get (None = rooting left undefined,
     which the library treats as unrooted)"""
     if build_rooted == "same":
@@ -504,7 +754,7 @@ def run_pool_engine(ctx, mon, members, ns, rooted, rng, alias_calls=4, missing_c
     ordered = [None] * k
 
     def build(i):
-        return bridge.build_tree(ref.copy(members[i]["spec"]), ns, build_rooted)
+        return mon.track(bridge.build_tree(ref.copy(members[i]["spec"]), ns, build_rooted))
 
     def reg(i, j, op):
         a, b = members[i], members[j]
@@ -529,9 +779,76 @@ def run_pool_engine(ctx, mon, members, ns, rooted, rng, alias_calls=4, missing_c
     for _ in range(alias_calls):
         i, j = rng.choice(pairs)
         t1 = build(i)
-        dcall(ctx, mon, ops[rng.choice(ALIASES)], t1, t1 if i == j else build(j))
+        t2 = t1 if i == j else build(j)
+        op = rng.choice(ALIASES)
+        kw = {}
+        if op in TAKES_ATTR and rng.random() < 0.4:
+            set_weight_attr(t1)
+            set_weight_attr(t2)
+            kw[TAKES_ATTR[op]] = WATTR
+        dcall(ctx, mon, ops[op], t1, t2, **kw)
+        ctx.ev("alias-call:%s" % op)
+    # U: the flag on trees that carry nothing / a fresh default encoding / an encoding that was not stored
+    for _ in range(flag_calls):
+        i, j = rng.choice(pairs)
+        t1 = build(i)
+        t2 = t1 if i == j else build(j)
+        for t in ([t1] if t1 is t2 else [t1, t2]):
+            put_in_state(mon, t, rng.choice(PRE_STATES))
+        r = dcall(ctx, mon, ops[rng.choice(TAKES_FLAG)], t1, t2, is_bipartitions_updated=True)
+        if r["status"] == "stale-by-contract":
+            ctx.mark_inconclusive("a flagged call on fresh builds was not judged (cache state %r)" % (
+                [mon.states.get(t1), mon.states.get(t2)],))
+    if persist_calls:
+        run_persistent(ctx, mon, members, ns, build_rooted, rng, persist_calls, pairs)
     relations(ctx, D, members, rooted)
     return D
+
+
+def run_persistent(ctx, mon, members, ns, build_rooted, rng, ncalls, pairs):
+    """ONE set of live objects, queried again and again: repeated and swapped calls, with and without the flag, other
+    partners, edge-length edits in between.  No structural edit is made, so every call is judged by the hook (U)."""
+    ops = _ops()
+    routes = ["node-api", "node-api", "node-api", "parser", "copy"]
+    trees = []
+    for m in members:
+        t = build_live(ctx, mon, m["spec"], ns, build_rooted, rng, rng.choice(routes))
+        put_in_state(mon, t, rng.choice(PRE_STATES))
+        trees.append(t)
+    menu = list(PRIMARY) * 3 + ["missing", "urf"]
+    edited = False
+    done = 0
+    while done < ncalls:
+        if rng.random() < 0.12:
+            t = rng.choice(trees)
+            if rng.random() < 0.8:
+                U.edit_length(t, rng)
+            else:
+                H.edit_root_length(t, rng)
+            ctx.ev("persistent-pass:length-edit")
+            edited = True
+            continue
+        i, j = rng.choice(pairs)
+        op = rng.choice(menu)
+        seq = [(i, j, op)]
+        r = rng.random()
+        if r < 0.25:
+            seq.append((i, j, op))                               # the same call once more
+        elif r < 0.5:
+            seq.append((j, i, op))                               # swapped
+        elif r < 0.6:
+            seq.append((i, j, rng.choice(("wrf", "euclid"))))    # other function, same pair
+        for (x, y, o) in seq:
+            kw = {"is_bipartitions_updated": True} if rng.random() < 0.75 else {}
+            res = dcall(ctx, mon, ops[o], trees[x], trees[y], **kw)
+            done += 1
+            ctx.ev("persistent-pass:call")
+            if kw:
+                if res["status"] == "stale-by-contract":
+                    # no structural edit was made: the only way here is an unexpected exception earlier (already flagged)
+                    ctx.ev("persistent-pass:flagged-call-not-judged")
+                elif edited:
+                    ctx.ev("persistent-pass:flagged-call-judged-after-length-edit")
 
 
 def _usable(*rs):
@@ -568,8 +885,16 @@ def relations(ctx, D, members, rooted):
                     # (i, j) or (j, i) was refused: which argument order, and what does its second argument look like?
                     second = j if not da else i
                     first = i if not da else j
+                    # recorded mechanism: only the second argument is validated, and only on the splits it shares with
+                    # the first one.  Anything that this mechanism does not explain gets a key of its own.
+                    shared = set(members[first]["map"]) & set(members[second]["map"])
                     if members[second]["miss"]:
-                        key = K_ASYM
+                        if not (members[second]["none-some"] & shared):
+                            key = K_ASYM_UNSHARED
+                        elif members[first]["none-all"] & shared:
+                            key = K_ASYM_DEFINED
+                        else:
+                            key = K_ASYM
                     elif members[first]["miss"]:
                         key = "%s|defined-in-one-argument-order-only|refused-only-when-tree-with-missing-lengths-is-first-argument" % fn
                     else:
@@ -682,7 +1007,7 @@ def cases(tier, seed):
     quick = tier == "quick"
     for name in DIRECTED:
         yield {"kind": "directed", "name": name}
-    for n in (2, 3, 4, 5):
+    for n in (1, 2, 3, 4, 5):
         for idx in range(len(gen.all_shapes(n))):
             for rooted in (True, False):
                 yield {"kind": "shapes", "n": n, "idx": idx, "rooted": rooted, "seed": seed, "tier": tier}
@@ -699,8 +1024,8 @@ def run_case(case, ctx):
     _quiet_deprecations()
     rng = random.Random("%s/%s" % (case.get("seed", 0), sorted(case.items())))
     mon = Monitor(ctx)
-    with Hooks(ctx) as hooks_mod, Hooks(ctx) as hooks_tree:
-        mon.install(hooks_mod, hooks_tree)
+    with Hooks(ctx) as hooks_mod, Hooks(ctx) as hooks_tree, Hooks(ctx) as hooks_legacy, Hooks(None) as hooks_enc:
+        mon.install(hooks_mod, hooks_tree, hooks_legacy, hooks_enc)
         kind = case["kind"]
         if kind == "directed":
             DIRECTED[case["name"]](ctx, mon, rng)
@@ -742,7 +1067,7 @@ def d_basal_unary_root(ctx, mon, rng):
     for rooted in (False, True):
         ns = make_ns(["A", "B", "C"], rng, "exact")
         ms = [member(t, rooted, group=0), member(rd, rooted, group=0 if not rooted else None, how="unary")]
-        run_pool_engine(ctx, mon, ms, ns, rooted, rng, alias_calls=2, missing_calls=2, self_pairs=False)
+        run_pool_engine(ctx, mon, ms, ns, rooted, rng, alias_calls=2, missing_calls=2, self_pairs=False, persist_calls=8)
 
 
 def d_basal_unary_child(ctx, mon, rng):
@@ -752,7 +1077,7 @@ def d_basal_unary_child(ctx, mon, rng):
     rd = S(None, [S("A", length=9), S("B", length=2), S("C", length=4), S("D", length=1)])
     ns = make_ns(["A", "B", "C", "D"], rng, "exact")
     ms = [member(t, False, group=0), member(rd, False, group=0, how="unary")]
-    run_pool_engine(ctx, mon, ms, ns, False, rng, alias_calls=2, missing_calls=2, self_pairs=False)
+    run_pool_engine(ctx, mon, ms, ns, False, rng, alias_calls=2, missing_calls=2, self_pairs=False, persist_calls=8)
 
 
 def d_two_leaf(ctx, mon, rng):
@@ -764,15 +1089,106 @@ def d_two_leaf(ctx, mon, rng):
                         alias_calls=2, missing_calls=2)
 
 
+def d_single_leaf(ctx, mon, rng):
+    """n = 1: the bare leaf as seed node, a unary seed above it, a unary chain; with, without and with other lengths"""
+    for build_rooted in (True, False, None):
+        rooted = bool(build_rooted)
+        ns = make_ns(["A"], rng, "exact")
+        ms = [member(sp, rooted, group=0, how="unary") for sp in H.single_leaf_drawings("A", 3.0, rng)]
+        ms += [member(sp, rooted, group=1, how="unary") for sp in H.single_leaf_drawings("A", 5, rng)[:2]]
+        ms.append(member(S("A"), rooted))
+        run_pool_engine(ctx, mon, ms, ns, rooted, rng, alias_calls=6, missing_calls=3, build_rooted=build_rooted,
+                        persist_calls=12)
+
+
 def d_find_missing_splits(ctx, mon, rng):
-    """deprecated Tree.find_missing_splits (alias of find_missing_bipartitions)"""
+    """deprecated aliases of find_missing_bipartitions: Tree.find_missing_splits, dendropy.treecalc.find_missing_splits"""
     ops = _ops()
     a = S(None, [S(None, [S("A", length=1), S("B", length=1)], length=1), S("C", length=1), S("D", length=1)])
     b = S(None, [S(None, [S("A", length=1), S("C", length=1)], length=1), S("B", length=1), S("D", length=1)])
     for rooted in (True, False):
         ns = make_ns(["A", "B", "C", "D"], rng, "exact")
-        dcall(ctx, mon, ops["T.missing"], bridge.build_tree(a, ns, rooted), bridge.build_tree(b, ns, rooted))
-        dcall(ctx, mon, ops["missing"], bridge.build_tree(a, ns, rooted), bridge.build_tree(b, ns, rooted))
+        for op in ("T.missing", "L.missing", "missing"):
+            dcall(ctx, mon, ops[op], build_live(ctx, mon, a, ns, rooted), build_live(ctx, mon, b, ns, rooted))
+
+
+def d_legacy_module(ctx, mon, rng):
+    """every function of the deprecated public module dendropy.treecalc, both argument orders"""
+    ops = _ops()
+    a = S(None, [S(None, [S("A", length=1), S("B", length=2)], length=4), S("C", length=1), S("D", length=1)])
+    b = S(None, [S(None, [S(None, [S("A", length=1), S("C", length=1)], length=1), S("B", length=1)], length=2),
+                 S("D", length=1)])
+    for rooted in (True, False):
+        ns = make_ns(["A", "B", "C", "D"], rng, "exact")
+        for op in ("L.sd", "L.fpfn", "L.rf", "L.euclid", "L.missing"):
+            for x, y in ((a, b), (b, a)):
+                dcall(ctx, mon, ops[op], build_live(ctx, mon, x, ns, rooted), build_live(ctx, mon, y, ns, rooted))
+                if op in TAKES_ATTR:
+                    t1, t2 = build_live(ctx, mon, x, ns, rooted), build_live(ctx, mon, y, ns, rooted)
+                    set_weight_attr(t1)
+                    set_weight_attr(t2)
+                    dcall(ctx, mon, ops[op], t1, t2, **{TAKES_ATTR[op]: WATTR})
+
+
+def d_encode_once_call_often(ctx, mon, rng):
+    """the usage of every docstring example: encode once, then many calls with is_bipartitions_updated=True"""
+    ops = _ops()
+    a = S(None, [S(None, [S("A", length=1), S("B", length=2)], length=3), S(None, [S("C", length=4), S("D", length=5)], length=6)])
+    b = S(None, [S(None, [S("A", length=2), S("C", length=2)], length=1), S(None, [S("B", length=4), S("D", length=1)], length=2)])
+    c = S(None, [S("A", length=1), S(None, [S("B", length=1), S(None, [S("C", length=1), S("D", length=1)], length=1)], length=1)])
+    for rooted in (True, False):
+        for pre in ("encode", "fresh", "nostore", "default-call"):
+            ns = make_ns(["A", "B", "C", "D"], rng, "exact")
+            ts = [build_live(ctx, mon, x, ns, rooted) for x in (a, b, c)]
+            for t in ts:
+                put_in_state(mon, t, pre)
+            if pre == "default-call":
+                dcall(ctx, mon, ops["wrf"], ts[0], ts[1])
+                dcall(ctx, mon, ops["sd"], ts[1], ts[2])
+            for op in ("wrf", "wrf", "euclid", "sd", "fpfn", "missing", "urf", "wrf"):
+                for i, j in ((0, 1), (0, 1), (1, 0), (1, 2), (2, 0), (0, 0)):
+                    dcall(ctx, mon, ops[op], ts[i], ts[j], is_bipartitions_updated=True)
+            U.edit_length(ts[1], rng)
+            H.edit_root_length(ts[0], rng)
+            for op in ("wrf", "euclid"):
+                for i, j in ((0, 1), (1, 0), (1, 2)):
+                    dcall(ctx, mon, ops[op], ts[i], ts[j], is_bipartitions_updated=True)
+
+
+def d_library_methods_update_bipartitions(ctx, mon, rng):
+    """restructuring methods of the library called with update_bipartitions=True, then calls with
+    is_bipartitions_updated=True (the documented way to avoid a re-encode); also after an earlier flagged call has made
+    the tree cache its bipartition -> edge map"""
+    ops = _ops()
+    a = S(None, [S(None, [S(None, [S("A", length=1), S("B", length=2)], length=4)], length=8),
+                 S(None, [S("C", length=1), S("D", length=0)], length=0), S("E", length=1), S("F", length=2)])
+    b = S(None, [S(None, [S("A", length=1), S("C", length=1)], length=1), S("B", length=1),
+                 S(None, [S("D", length=1), S("E", length=3), S("F", length=1)], length=2)])
+    labels = ["A", "B", "C", "D", "E", "F"]
+    for rooted in (True, False):
+        for kind in sorted(H.LIB_EDITS) + ["prune_taxa"]:
+            for first_state in ("encode", "keep-unary", "fresh"):
+                for warm in (False, True):
+                    ns = make_ns(labels, rng, "exact")
+                    t1, t2 = build_live(ctx, mon, a, ns, rooted), build_live(ctx, mon, b, ns, rooted)
+                    if first_state == "keep-unary":
+                        t1.encode_bipartitions(suppress_unifurcations=False)
+                    else:
+                        put_in_state(mon, t1, first_state)
+                    put_in_state(mon, t2, "encode")
+                    if warm:
+                        # makes both trees build and cache their bipartition -> edge maps
+                        dcall(ctx, mon, ops["wrf"], t1, t2, is_bipartitions_updated=True)
+                    alive = list(labels)
+                    done = journal_lib_edit(ctx, mon, random.Random(rng.random()), [t1, t2] if kind == "prune_taxa" else [t1],
+                                            kind, rooted, alive, force_update=True)
+                    if done in (None, "ended"):
+                        continue
+                    for op in ("wrf", "euclid", "sd", "fpfn", "missing", "wrf"):
+                        for x, y in ((t1, t2), (t2, t1)):
+                            res = dcall(ctx, mon, ops[op], x, y, is_bipartitions_updated=True)
+                            if res["status"] != "stale-by-contract":
+                                ctx.ev("flagged-call-judged-after-library-method:%s" % kind)
 
 
 def d_stale_minimal(ctx, mon, rng):
@@ -782,11 +1198,12 @@ def d_stale_minimal(ctx, mon, rng):
                  S(None, [S("D", length=1), S("E", length=1)], length=4)])
     for rooted in (True, False):
         ns = make_ns(["A", "B", "C", "D", "E"], rng, "exact")
-        t1 = bridge.build_tree(ref.copy(a), ns, rooted)
-        t2 = bridge.build_tree(ref.copy(a), ns, rooted)
-        for op in PRIMARY + ("missing", "T.sd", "T.rf"):
+        t1 = build_live(ctx, mon, a, ns, rooted)
+        t2 = build_live(ctx, mon, a, ns, rooted)
+        for op in PRIMARY + ("missing", "T.sd", "T.rf", "L.sd", "L.euclid"):
             dcall(ctx, mon, ops[op], t1, t2)
             done = U.apply_edit(t1, random.Random(5), "nni") or U.apply_edit(t1, random.Random(5), "spr-edge")
+            mon.states.structural_edit(t1)
             ctx.ev("journal-edit:%s" % done)
             ctx.ev("journal-call-after-edit")
             dcall(ctx, mon, ops[op], t1, t2)
@@ -804,7 +1221,11 @@ DIRECTED = {
     "unrooted-unary-root-basal-bifurcation": d_basal_unary_root,
     "unrooted-unary-child-of-bifurcating-root": d_basal_unary_child,
     "unrooted-two-leaf-tree": d_two_leaf,
+    "single-leaf-trees": d_single_leaf,
     "deprecated-find_missing_splits": d_find_missing_splits,
+    "deprecated-module-treecalc": d_legacy_module,
+    "encode-once-call-often": d_encode_once_call_often,
+    "library-methods-update-bipartitions": d_library_methods_update_bipartitions,
     "stale-after-edit-minimal": d_stale_minimal,
     "different-namespaces": d_namespaces,
 }
@@ -815,6 +1236,8 @@ def run_shapes(ctx, mon, rng, case):
     n, idx, rooted = case["n"], case["idx"], case["rooted"]
     shapes = gen.all_shapes(n)
     names = ["T%d" % i for i in range(n)]
+    if n == 1:
+        return run_single_leaf_shapes(ctx, mon, rng, rooted)
     if n <= 4:
         js = list(range(len(shapes)))
     else:
@@ -826,21 +1249,38 @@ def run_shapes(ctx, mon, rng, case):
         b = gen.decorate_lengths(gen.shape_to_spec(shapes[j], names), rng, pattern, root_length=(j % 7 == 0))
         how = rng.choice(U.redraw_kinds(rooted))
         a2 = U.redraw(a, rng, rooted, how)
+        ctx.ev("redraw-member:%s" % how)
         ms = [member(a, rooted, group=0), member(b, rooted), member(a2, rooted, group=0, how=how)]
         run_pool_engine(ctx, mon, ms, ns, rooted, rng, alias_calls=1, missing_calls=2,
-                        self_pairs=(j == js[0]))
+                        self_pairs=(j == js[0]), flag_calls=1, persist_calls=6 if j % 3 == 0 else 0)
+
+
+def run_single_leaf_shapes(ctx, mon, rng, rooted):
+    """n = 1: every drawing of the one-leaf tree x every length pattern, paired with another length / no length"""
+    ns = make_ns(["T0"], rng)
+    for pattern in sorted(set(PATTERNS)):
+        la = gen.decorate_lengths(S("T0"), rng, pattern, root_length=True)[2]
+        lb = gen.decorate_lengths(S("T0"), rng, pattern, root_length=True)[2]
+        ms = [member(sp, rooted, group=0, how="unary") for sp in H.single_leaf_drawings("T0", la, rng)]
+        ms += [member(sp, rooted, group=1, how="unary") for sp in H.single_leaf_drawings("T0", lb, rng)[:3]]
+        ms.append(member(S("T0"), rooted))
+        ctx.ev("single-leaf-pool")
+        run_pool_engine(ctx, mon, ms, ns, rooted, rng, alias_calls=4, missing_calls=2, flag_calls=3, persist_calls=10,
+                        build_rooted=rooted if rooted or pattern != "unit" else None)
 
 
 # ---- random pools ------------------------------------------------------------------------------------------------
 def run_pool(ctx, mon, rng, case):
     quick = case.get("tier", ctx.tier) == "quick"
-    n = rng.choice([3, 4, 5, 6, 8, 10, 12]) if quick else rng.choice([3, 5, 7, 10, 14, 20, 30, 50])
+    n = rng.choice([1, 2, 3, 4, 5, 6, 6, 8, 8, 10, 12]) if quick else rng.choice([1, 2, 3, 5, 7, 10, 14, 20, 30, 50])
     build_rooted = rng.choice([True, True, True, True, False, False, False, None])
     rooted = bool(build_rooted)
     names = ["T%d" % i for i in range(n)]
     pattern = rng.choice(PATTERNS + ("one-without", "signed"))
     p_unary = rng.choice([0, 0, 0, 0.15])
     root_len = rng.random() < 0.25
+    if build_rooted is None:
+        ctx.ev("pool:rooting-left-undefined")
 
     def deco(sp, pat=None):
         pat = pat or pattern
@@ -858,6 +1298,7 @@ def run_pool(ctx, mon, rng, case):
     kinds = U.redraw_kinds(rooted)
     for _ in range(2):
         how = rng.choice(kinds)
+        ctx.ev("redraw-member:%s" % how)
         ms.append(member(U.redraw(base, rng, rooted, how), rooted, group=0, how=how))
     # same topology, other lengths
     ms.append(member(deco(U.redraw(base, rng, rooted, "child-order")), rooted))
@@ -869,6 +1310,7 @@ def run_pool(ctx, mon, rng, case):
     ms.append(member(other, rooted, group=1))
     if rng.random() < 0.5:
         how = rng.choice(kinds)
+        ctx.ev("redraw-member:%s" % how)
         ms.append(member(U.redraw(other, rng, rooted, how), rooted, group=1, how=how))
     if pattern == "one-without":
         ms.append(member(gen.decorate_lengths(U.redraw(base, rng, rooted, "child-order"), rng, "none"), rooted))
@@ -881,80 +1323,117 @@ def run_pool(ctx, mon, rng, case):
         keep = set(rng.sample(allp, len(allp) // 2))
         keep |= set((j, i) for (i, j) in list(keep))
         pairs = sorted(keep)
-    run_pool_engine(ctx, mon, ms, ns, rooted, rng, alias_calls=4, missing_calls=6, pairs=pairs, build_rooted=build_rooted)
+    run_pool_engine(ctx, mon, ms, ns, rooted, rng, alias_calls=8, missing_calls=6, pairs=pairs, build_rooted=build_rooted,
+                    flag_calls=6, persist_calls=36)
 
 
-ENCODE_FLAGS = ({}, {}, {"suppress_unifurcations": False}, {"collapse_unrooted_basal_bifurcation": False},
+ENCODE_FLAGS = ({}, {}, {}, {"suppress_unifurcations": False}, {"collapse_unrooted_basal_bifurcation": False},
                 {"is_bipartitions_mutable": True}, {"suppress_storage": True})
+JOURNAL_EDITS = U.EDITS + U.EDITS + tuple(H.MORE_EDITS)
+JOURNAL_LIB_EDITS = tuple(sorted(H.LIB_EDITS)) + ("prune_taxa", "copy", "toggle-rooting")
 
 
 # ---- edit journals -----------------------------------------------------------------------------------------------
 def run_journal(ctx, mon, rng, case):
     ops = _ops()
     quick = case.get("tier", ctx.tier) == "quick"
-    n = rng.choice([4, 5, 6, 8, 10]) if quick else rng.choice([4, 5, 6, 8, 12, 18, 25])
+    n = rng.choice([1, 2, 3, 4, 5, 6, 6, 8, 8, 10]) if quick else rng.choice([1, 2, 3, 4, 5, 6, 8, 12, 18, 25])
     rooted = rng.random() < 0.5
     names = ["T%d" % i for i in range(n)]
+    alive = list(names)
     ns = make_ns(names, rng)
     k = rng.choice([2, 2, 3])
+    pat_menu = ["dyadic", "dyadic", "dyadic", "ints", "zeros", "dyadic", "ints", "zeros", "mixed_missing", "none"]
     trees = []
     for _ in range(k):
         sp = gen.random_spec(rng, n, p_poly=rng.choice([0, 0.3]), p_unary=rng.choice([0, 0, 0.1]), names=names)
-        gen.decorate_lengths(sp, rng, rng.choice(["dyadic", "dyadic", "ints", "zeros"]), root_length=rng.random() < 0.2)
-        trees.append(bridge.build_tree(sp, ns, rooted))
-    dirty = [True] * k
+        gen.decorate_lengths(sp, rng, rng.choice(pat_menu), root_length=rng.random() < 0.2)
+        trees.append(build_live(ctx, mon, sp, ns, rooted, rng, rng.choice(["node-api", "node-api", "node-api", "parser", "copy"])))
+    st = mon.states
     last_edit = "init"
-    allops = list(PRIMARY) * 3 + ["missing", "missing"] + list(ALIASES)
+    allops = list(PRIMARY) * 4 + ["missing", "missing"] + list(ALIASES)
+
+    def stale(*idx):
+        return any(st.get(trees[i]) in ("dirty", "other", "keep-unary", "copy") for i in idx)
+
+    def pair():
+        if k == 1 or rng.random() < 0.05:
+            i = rng.randrange(k)
+            return i, i
+        return tuple(rng.sample(range(k), 2))
+
     for step in range(rng.randint(6, 16)):
         r = rng.random()
-        if r < 0.42:
+        if r < 0.30:
             i = rng.randrange(k)
-            done = U.apply_edit(trees[i], rng, rng.choice(U.EDITS))
+            kind = rng.choice(JOURNAL_EDITS)
+            if kind in H.MORE_EDITS:
+                fn, structural = H.MORE_EDITS[kind]
+                done = fn(trees[i], rng)
+            else:
+                done = U.apply_edit(trees[i], rng, kind)
+                structural = kind != "length"
             if done:
-                dirty[i] = True
+                if structural:
+                    st.structural_edit(trees[i])
                 last_edit = done
                 ctx.ev("journal-edit:%s" % done)
+        elif r < 0.42:
+            kind = rng.choice(JOURNAL_LIB_EDITS)
+            done = journal_lib_edit(ctx, mon, rng, trees, kind, rooted, alive)
+            if done == "ended":
+                return
+            if done == "toggle-rooting":
+                rooted = not rooted
+            if done:
+                last_edit = "lib:" + done
         elif r < 0.48:
             i = rng.randrange(k)
             # explicit encode, sometimes with non-default flags: a later call with default arguments must not care
-            trees[i].encode_bipartitions(**rng.choice(ENCODE_FLAGS))
+            flags = rng.choice(ENCODE_FLAGS)
+            trees[i].encode_bipartitions(**flags)
             mon.note_encoded(trees[i])
-            dirty[i] = False
+            ctx.ev("journal-encode:%s" % (",".join(sorted(flags)) or "default"))
             last_edit = "encode"
-        elif r < 0.55:
-            # stale by contract: result not judged, must merely not disturb later default calls
-            i, j = rng.sample(range(k), 2)
-            op = rng.choice(TAKES_FLAG)
-            try:
-                ops[op](trees[i], trees[j], is_bipartitions_updated=True)
-            except core.CaseTimeout:
-                raise
-            except Exception:
-                ctx.note("exception-in-unjudged-call-with-is_bipartitions_updated=True")
-            ctx.ev("journal-unjudged-updated-call")
         elif r < 0.62:
-            i, j = rng.sample(range(k), 2)
-            for t in (trees[i], trees[j]):
-                t.encode_bipartitions()
-                mon.note_encoded(t)
-            dirty[i] = dirty[j] = False
-            mon.trust_updated = True
-            try:
-                dcall(ctx, mon, ops[rng.choice(TAKES_FLAG)], trees[i], trees[j], is_bipartitions_updated=True)
-            finally:
-                mon.trust_updated = False
-            ctx.ev("journal-trusted-updated-call")
+            # a run of calls with is_bipartitions_updated=True (the hook judges those whose trees are not stale)
+            if rng.random() < 0.6:
+                for t in trees:
+                    if not H.trusted(st.get(t)) and rng.random() < 0.8:
+                        t.encode_bipartitions()
+                        mon.note_encoded(t)
+            i, j = pair()
+            op = rng.choice(TAKES_FLAG)
+            for rep in range(rng.randint(1, 4)):
+                s1, s2 = st.get(trees[i]), st.get(trees[j])
+                res = dcall(ctx, mon, ops[op], trees[i], trees[j], is_bipartitions_updated=True)
+                if res["status"] == "stale-by-contract":
+                    ctx.ev("journal-flagged-call:stale-by-contract")
+                else:
+                    ctx.ev("journal-flagged-call:judged")
+                    if rep:
+                        ctx.ev("journal-flagged-call:judged-in-a-run")
+                    for s_ in (s1, s2):
+                        if s_.startswith("clean:") and s_ not in ("clean:encode", "clean:call"):
+                            ctx.ev("journal-flagged-call:judged-after-library-method-updated-bipartitions")
+                    ctx.transition(("flagged", s1, s2, op, rooted))
+                x = rng.random()
+                if x < 0.3:
+                    i, j = j, i
+                elif x < 0.5:
+                    j = rng.randrange(k)
+                elif x < 0.75:
+                    op = rng.choice(TAKES_FLAG)
+                if rng.random() < 0.15:
+                    U.edit_length(trees[rng.choice((i, j))], rng)
+                    ctx.ev("journal-edit:length")
         else:
-            if rng.random() < 0.05:
-                i = j = rng.randrange(k)
-            else:
-                i, j = rng.sample(range(k), 2)
+            i, j = pair()
             op = rng.choice(allops)
-            if dirty[i] or dirty[j]:
+            if stale(i, j):
                 ctx.ev("journal-call-after-edit")
             ctx.transition((last_edit, op, rooted))
             r_ = dcall(ctx, mon, ops[op], trees[i], trees[j])
-            dirty[i] = dirty[j] = False
             if n <= 10 and r_["status"] == "ok":
                 try:
                     ctx.state((rooted, ref.canon(bridge.extract(trees[i]), lengths=False),
@@ -964,12 +1443,98 @@ def run_journal(ctx, mon, rng, case):
             ctx.nontrivial(("journal", case.get("i"), case.get("seed"), step, op))
 
 
+def journal_lib_edit(ctx, mon, rng, trees, kind, rooted, alive, force_update=False):
+    """one edit made through the library's own methods.  -> label | None (not applicable) | "ended" (journal over)"""
+    st = mon.states
+    k = len(trees)
+    if kind == "toggle-rooting":
+        for t in trees:
+            t.is_rooted = not rooted
+            st.structural_edit(t)              # every cached Bipartition now has the wrong rooting semantics
+        ctx.ev("journal-edit:toggle-rooting")
+        return "toggle-rooting"
+    if kind == "copy":
+        i = rng.randrange(k)
+        was = st.get(trees[i])
+        try:
+            new, how = H.lib_copy(trees[i], rng)
+        except core.CaseTimeout:
+            raise
+        except Exception as e:
+            ctx.note("journal-ended:library-edit-raised:copy:%s" % type(e).__name__)
+            return "ended"
+        trees[i] = new
+        st.set(new, "fresh" if was == "fresh" else "copy")
+        if not H.inside_quantifier(new, alive):
+            ctx.note("journal-ended:library-edit-left-a-tree-outside-the-quantifier:copy")
+            return "ended"
+        ctx.ev("journal-edit:lib:copy")
+        return "copy"
+    if kind == "prune_taxa":
+        if len(alive) < 4:
+            return None
+        gone = rng.sample(alive, rng.choice([1, 1, 2]))
+        targets = list(range(k))
+    else:
+        gone = []
+        targets = [rng.randrange(k)]
+    label = None
+    for i in targets:
+        t = trees[i]
+        ub = force_update or rng.random() < 0.5
+        was = st.get(t)
+        seen = st.encodes
+        try:
+            if kind == "prune_taxa":
+                t.prune_taxa([tx for tx in t.taxon_namespace if tx.label in gone], update_bipartitions=ub)
+                label = "prune_taxa"
+            else:
+                label = H.LIB_EDITS[kind](t, rng, ub)
+        except core.CaseTimeout:
+            raise
+        except Exception as e:
+            # not this property's business; but the tree may be half-edited: stop here, visibly
+            ctx.note("journal-ended:library-edit-raised:%s:%s" % (kind, type(e).__name__))
+            return "ended"
+        if label is None:
+            return None
+        if kind == "reroot_at_edge" and not rooted:
+            t.is_rooted = False                # reroot_at_edge makes the tree rooted; the journal is an unrooted one
+            ub = False
+        if ub and st.encodes > seen:
+            now = st.get(t)                    # set by the encode hook from the flags the method used
+            if now == "clean:encode":
+                st.set(t, "clean:%s" % label)
+        elif ub and label == "suppress_unifurcations" and (H.trusted(was) and was not in ("fresh", "nostore")
+                                                           or was == "keep-unary"):
+            # documented: "If True then the bipartitions encoding will be calculated" (maintained in place).  Not trusted
+            # when the suppression exposed a basal bifurcation on an unrooted tree: only an encode collapses that one.
+            if rooted or len(t._seed_node._child_nodes) != 2:
+                st.set(t, "clean:suppress_unifurcations")
+            else:
+                st.set(t, "other")
+        else:
+            if st.encodes > seen and st.get(t) != "unknown":
+                st.set(t, "dirty")
+            else:
+                st.structural_edit(t)
+        ctx.ev("journal-edit:lib:%s%s" % (label, ":update_bipartitions" if ub else ""))
+    if gone:
+        for g in gone:
+            alive.remove(g)
+    for t in trees:
+        if not H.inside_quantifier(t, alive):
+            ctx.note("journal-ended:library-edit-left-a-tree-outside-the-quantifier:%s" % kind)
+            return "ended"
+    return label
+
+
 # ---- different namespaces ----------------------------------------------------------------------------------------
 def run_ns(ctx, mon, rng, case):
     import copy
     import dendropy
     ops = _ops()
-    n = rng.choice([2, 3, 4, 6])
+    n = rng.choice([1, 2, 3, 4, 6, 9])
     names = ["T%d" % i for i in range(n)]
     rooted = rng.random() < 0.5
     a = gen.decorate_lengths(gen.random_spec(rng, n, p_poly=0.3, names=names), rng, "dyadic")
@@ -979,32 +1544,32 @@ def run_ns(ctx, mon, rng, case):
     ns1 = dendropy.TaxonNamespace(names)
     for variant in ("fresh-same-labels", "shares-taxon-objects", "deepcopy-of-tree", "deepcopy-of-namespace"):
         for pre_encoded in (False, True):
-            t1 = bridge.build_tree(ref.copy(a), ns1, rooted)
+            t1 = build_live(ctx, mon, a, ns1, rooted)
             try:
                 if variant == "fresh-same-labels":
-                    t2 = bridge.build_tree(ref.copy(b), dendropy.TaxonNamespace(names), rooted)
+                    t2 = build_live(ctx, mon, b, dendropy.TaxonNamespace(names), rooted)
                 elif variant == "shares-taxon-objects":
-                    t2 = bridge.build_tree(ref.copy(b), dendropy.TaxonNamespace(list(ns1)), rooted)
+                    t2 = build_live(ctx, mon, b, dendropy.TaxonNamespace(list(ns1)), rooted)
                 elif variant == "deepcopy-of-tree":
-                    t2 = copy.deepcopy(t1)
+                    t2 = mon.track(copy.deepcopy(t1))
                 else:
-                    t2 = bridge.build_tree(ref.copy(b), copy.deepcopy(ns1), rooted)
+                    t2 = build_live(ctx, mon, b, copy.deepcopy(ns1), rooted)
             except core.CaseTimeout:
                 raise
-            except Exception:
-                ctx.note("namespace-variant-could-not-be-built:%s" % variant)
+            except Exception as e:
+                ctx.note("namespace-variant-could-not-be-built:%s:%s" % (variant, type(e).__name__))
+                ctx.mark_inconclusive("namespace variant %s could not be built: %s" % (variant, core.exc_brief(e)))
                 continue
             if t2.taxon_namespace is t1.taxon_namespace:
                 ctx.note("namespace-variant-shares-the-namespace:%s" % variant)
                 continue
+            ctx.ev("namespace-variant:%s" % variant)
             if pre_encoded:
                 t1.encode_bipartitions()
                 t2.encode_bipartitions()
             for op in sorted(ops):
-                if op == "T.missing":
-                    continue
                 for x, y in ((t1, t2), (t2, t1)):
                     dcall(ctx, mon, ops[op], x, y)
-                    if pre_encoded and op in TAKES_FLAG:
+                    if op in TAKES_FLAG:
                         dcall(ctx, mon, ops[op], x, y, is_bipartitions_updated=True)
                 ctx.nontrivial(("ns", variant, pre_encoded, op, rooted, n))
